@@ -3,6 +3,8 @@ CONSTANTS
   NV = 2
   StabV = {2}
   HasHf = FALSE
+  Cmds = {}
+  Rewrites = FALSE
   NP = 3
   UseQueue = TRUE
   SkipQueue = FALSE
